@@ -335,3 +335,14 @@ def replay(w, rec):
     import random
 
     run_case(w["case"], rec, random.Random(0))
+
+
+# workloads added after the seventh round of seeded changes (DESIGN section 9): part of the rule of this check
+_RULE_ADDENDUM = 'the same formulas over variables pinned by lb == ub; the same expression objects re-classified after Parameter.set()'
+_info_base = info
+
+
+def info(tier):  # noqa: F811
+    d = _info_base(tier)
+    d["rule"] = d["rule"] + "; " + _RULE_ADDENDUM
+    return d
